@@ -110,7 +110,7 @@ class Sim:
         _random.seed(rng.getrandbits(64))
 
     # -- construction -----------------------------------------------------------------------------------------
-    def add_node(self, flags=None, tunnel_ep=False):
+    def add_node(self, flags=None, tunnel_ep=False, dual_stack=False):
         from ipv8.messaging.anonymization.community import TunnelCommunity, TunnelSettings
         from ipv8.messaging.anonymization.hidden_services import HiddenTunnelCommunity, HiddenTunnelSettings
         from ipv8.messaging.anonymization.tunnel import PEER_FLAG_RELAY, PEER_FLAG_SPEED_TEST
@@ -121,7 +121,42 @@ class Sim:
         s.max_circuits = 0
         s.remove_tunnel_delay = self.delay
         s.peer_flags = set(flags) if flags is not None else {PEER_FLAG_RELAY, PEER_FLAG_SPEED_TEST}
-        if tunnel_ep:
+        if dual_stack:
+            # the node runs on a DispatcherEndpoint with an IPv4 and an IPv6 interface (both on the mock internet)
+            from ipv8.messaging.interfaces.dispatcher.endpoint import DispatcherEndpoint
+            from ipv8.test.mocking import ipv8 as mipv8
+            mep = self.mep
+
+            class HDispatcher(DispatcherEndpoint):
+                def __init__(self):
+                    super().__init__([])
+                    self.interfaces = {"UDPIPv4": mep.AutoMockEndpoint(), "UDPIPv6": mep.AutoMockEndpoint()}
+                    self.interface_order = ["UDPIPv4", "UDPIPv6"]
+                    self._preferred_interface = self.interfaces["UDPIPv4"]
+                wan_address = property(lambda self: self.interfaces["UDPIPv4"].wan_address)
+                lan_address = property(lambda self: self.interfaces["UDPIPv4"].lan_address)
+
+                def open(self):
+                    for i in self.interfaces.values():
+                        i.open()
+                    return True
+
+                def is_open(self):
+                    return all(i.is_open() for i in self.interfaces.values())
+
+                def close(self):
+                    for i in self.interfaces.values():
+                        i.close()
+
+                def send(self, socket_address, packet, interface=None):
+                    self.interfaces["UDPIPv6" if ":" in str(socket_address[0]) else "UDPIPv4"].send(socket_address, packet)
+            orig_factory = mipv8.AutoMockEndpoint
+            mipv8.AutoMockEndpoint = HDispatcher
+            try:
+                n = MockIPv8("curve25519", HiddenTunnelCommunity if self.hidden else TunnelCommunity, settings=s)
+            finally:
+                mipv8.AutoMockEndpoint = orig_factory
+        elif tunnel_ep:
             # the node's endpoint is a TunnelEndpoint wrapped around the mock endpoint (what IPv8 configures for anonymization)
             from ipv8.messaging.anonymization.endpoint import TunnelEndpoint
             from ipv8.test.mocking import ipv8 as mipv8
@@ -159,15 +194,22 @@ class Sim:
         return idx
 
     def _hook(self, idx, n):
-        ep = getattr(n.endpoint, "endpoint", n.endpoint)      # the socket-level endpoint (inside a TunnelEndpoint)
+        # the socket-level endpoint(s): inside a TunnelEndpoint, or the interfaces of a DispatcherEndpoint
+        if hasattr(n.endpoint, "interfaces"):
+            eps = list(n.endpoint.interfaces.values())
+            for e in eps[1:]:
+                self.addr2idx[tuple(e.wan_address)] = idx
+                self.addr2idx[tuple(e.lan_address)] = idx
+        else:
+            eps = [getattr(n.endpoint, "endpoint", n.endpoint)]
         ov = n.overlay
         ce = ov.crypto_endpoint
-
-        def send(addr, pkt, idx=idx):
-            if not ep.is_open():
-                return
-            self._on_send(idx, tuple(addr), bytes(pkt))
-        ep.send = send
+        for ep in eps:
+            def send(addr, pkt, idx=idx, ep=ep):
+                if not ep.is_open():
+                    return
+                self._on_send(idx, tuple(addr), bytes(pkt))
+            ep.send = send
 
         real_send_cell = ce.send_cell
 
@@ -244,12 +286,12 @@ class Sim:
         finally:
             self.cur = prev
 
-    def inject(self, dst_idx, src_idx, pkt, src_addr=None):
+    def inject(self, dst_idx, src_idx, pkt, src_addr=None, dst_addr=None):
         p = Passage(len(self.passages), "inject", dst_idx, dst_idx, None, None, pkt, None)
         self.passages.append(p)
         if src_addr is not None:
             self.spoof[p.pid] = tuple(src_addr)
-        self.queue.append((p.pid, src_idx, tuple(self.nodes[dst_idx].endpoint.wan_address), pkt))
+        self.queue.append((p.pid, src_idx, tuple(dst_addr or self.nodes[dst_idx].endpoint.wan_address), pkt))
         asyncio.get_running_loop().call_soon(self._pump_one)
         return p
 
@@ -288,7 +330,7 @@ class Sim:
         from ipv8.messaging.interfaces.udp.endpoint import UDPv4Address
         sim = self
         self._xmod = xmod
-        self._orig_exit_io = (xmod.TunnelProtocol.open, xmod.TunnelExitSocket.resolve, xmod.TunnelExitSocket.is_allowed)
+        self._orig_exit_io = (xmod.TunnelProtocol.open, xmod.TunnelExitSocket.is_allowed)
         orig_allowed = xmod.TunnelExitSocket.is_allowed
 
         class FakeTransport(EndpointListener):
@@ -336,21 +378,28 @@ class Sim:
             await asyncio.sleep(0.005)
             return FakeTransport(proto)
 
-        async def fake_resolve(xs, address):
+        async def fake_getaddrinfo(host, port, **kwargs):
+            # the DNS of the mock internet: the real TunnelExitSocket.resolve runs on top of it
+            import socket as _socket
             await asyncio.sleep(0.01)
-            return UDPv4Address(sim.dns(address[0]), address[1])
+            ip = sim.dns(host)
+            if ":" in ip:
+                return [(_socket.AF_INET6, _socket.SOCK_DGRAM, 17, "", (ip, port, 0, 0))]
+            return [(_socket.AF_INET, _socket.SOCK_DGRAM, 17, "", (ip, port))]
+        asyncio.get_running_loop().getaddrinfo = fake_getaddrinfo
 
         def is_allowed(xs, data):
             return True if sim.open_policy else orig_allowed(xs, data)
 
         xmod.TunnelProtocol.open = fake_open
-        xmod.TunnelExitSocket.resolve = fake_resolve
         xmod.TunnelExitSocket.is_allowed = is_allowed
 
     def dns(self, name) -> str:
         if name in self.dns_table:
             return self.dns_table[name]
         h = sum(ord(c) * (i + 7) for i, c in enumerate(str(name)))
+        if str(name).endswith(".v6"):
+            return f"2001:db8::{h % 65535 + 1:x}"
         return f"10.{h % 250 + 1}.{(h // 250) % 250 + 1}.{(h // 62500) % 250 + 1}"
 
     def live_exit_sockets(self):
@@ -367,8 +416,7 @@ class Sim:
                 pass
         for t in self.transports:
             t.closed = True
-        (self._xmod.TunnelProtocol.open, self._xmod.TunnelExitSocket.resolve,
-         self._xmod.TunnelExitSocket.is_allowed) = self._orig_exit_io
+        (self._xmod.TunnelProtocol.open, self._xmod.TunnelExitSocket.is_allowed) = self._orig_exit_io
         self.mep.internet.clear()
 
     # -- reading the real state ---------------------------------------------------------------------------------
@@ -857,7 +905,8 @@ async def burst_round(ctx: Ctx, rng, ck: Checker, sim: Sim, c, path, hops: int, 
     tag = ck.tag
     ov = sim.nodes[0].overlay
     exit_node, exit_cid = path[-1]
-    kinds = ["name", "ip4", "name", "ip6", "mixed", "ip4"] if not fresh else [rng.choice(["name", "ip4", "mixed", "ip6", "ip4-overflow"])]
+    kinds = ["name", "ip4", "name-ports", "ip6", "mixed", "ip4", "name6", "name-ports"] if not fresh else \
+        [rng.choice(["name", "ip4", "mixed", "ip6", "ip4-overflow", "name-ports"])]
     for kind in kinds:
         k = rng.choice([1, 2, 3, 5]) if kind != "ip4" or fresh else rng.choice([1, 3, 12])
         if kind == "ip4-overflow":      # more than the queue (deque(maxlen=10)) holds while the transports are created
@@ -865,9 +914,17 @@ async def burst_round(ctx: Ctx, rng, ck: Checker, sim: Sim, c, path, hops: int, 
         host = f"host{rng.randrange(1000)}.example"
         port = 1000 + rng.randrange(60000)
         dests = []
+        if kind == "name-ports":
+            k = max(k, 2)       # the same host name, several services (ports), also ones used in earlier bursts
+            host = rng.choice(["tracker.example", host])
+        if kind == "name6":
+            host = f"host{rng.randrange(1000)}.v6"
         for i in range(k):
             dk = kind if kind != "mixed" else rng.choice(["name", "ip4"])
-            if dk == "name":
+            if dk == "name-ports":
+                pt = rng.choice([port, port + 1 + i, 6881])
+                dests.append((DomainAddress(host, pt), (sim.dns(host), pt)))
+            elif dk in ("name", "name6"):
                 dests.append((DomainAddress(host, port), (sim.dns(host), port)))
             elif dk == "ip4":
                 dests.append((UDPv4Address("8.8.4.4", port), ("8.8.4.4", port)))
@@ -1936,13 +1993,44 @@ async def run_tunnel_endpoint(ctx: Ctx, rng, hops: int, use_model: bool, seed_ta
         anon, plain = load(0xA1, True), load(0xB2, False)
         await sim.introduce()
         ov = n0.overlay
-        c = ov.create_circuit(hops)
-        await sim.settle(0.05)
-        if c is None or c.state != "READY":
-            ctx.oracle_fail("create_circuit:not-ready", f"{tag}: no circuit", {"scenario": tag, "hops": hops})
+        # ---- forward: the anonymized overlay sends through the TunnelEndpoint; first while no circuit exists (queued, a
+        #      circuit is built), then with the circuit ready, then again with an empty queue
+        n0.endpoint.hops = hops
+        sent, flags = [], []
+        n_exit = len(sim.exit_log)
+        phases = [rng.choice([1, 2, 3]), rng.choice([1, 2, 3]), rng.choice([0, 2])]
+        for phase, k in enumerate(phases):
+            for _ in range(k):
+                dest = (f"8.8.{rng.randrange(1, 250)}.{rng.randrange(1, 250)}", 1000 + rng.randrange(60000))
+                pkt = anon.get_prefix() + bytes([0xEE]) + bytes(rng.getrandbits(8) for _ in range(rng.choice([0, 40, 700])))
+                ready = bool(ov.find_circuits(exit_flags=[PEER_FLAG_EXIT_IPV8], hops=hops))
+                flags.append(int(ready))
+                sent.append((pkt, dest))
+                anon.endpoint.send(dest, pkt)        # no settling inside a phase
+            await sim.settle(0.05)
+        cs = ov.find_circuits(exit_flags=[PEER_FLAG_EXIT_IPV8], hops=hops)
+        if not cs:
+            ctx.oracle_fail("create_circuit:not-ready", f"{tag}: the TunnelEndpoint did not get a circuit built", {"scenario": tag, "hops": hops})
             return
+        c = cs[0]
         path = path_of(sim, 0, c)
         exit_node, exit_cid = path[-1]
+        outs = [(o[2], o[3]) for o in sim.exit_log[n_exit:]]
+        replay = {"scenario": tag, "op": "tunnel-endpoint-send", "hops": hops, "ready_at_send": flags,
+                  "packets": [p.hex()[:80] for p, _ in sent], "destinations": [list(d) for _, d in sent]}
+        if sorted(outs) != sorted(sent):
+            lost = [i for i, x in enumerate(sent) if outs.count(x) != 1]
+            ctx.oracle_fail("tunnel_endpoint:send-output", f"{tag}: {len(sent)} packets handed to the anonymizing endpoint (ready circuit at the "
+                            f"time of the call: {flags}): packets {lost} did not leave the exit exactly once to their own destination "
+                            f"({len(outs)} datagrams left)", replay)
+        ctx.count(f"tunnel_endpoint_send:history:{''.join(map(str, flags))}")
+        if ck.drv is not None:
+            m = ck.ask(f"tepsend [{','.join(map(str, flags))}]")
+            order = [sent.index(x) if x in sent else -1 for x in outs]
+            real = f"out=[{','.join(map(str, order))}] queued=[{','.join(str(i) for i, x in enumerate(sent) if x not in outs)}]"
+            if m != real:
+                ctx.disagree(f"{tag}: TunnelEndpoint.send history {flags}: model `{m}` != implementation `{real}`", {**replay, "model": m, "impl": real})
+        ctx.case(("tunnel-endpoint-send", hops, tuple(flags)), True)
         xs = sim.nodes[exit_node].overlay.exit_sockets.get(exit_cid)
         sim.key_ids()
         ck.load_tables()
@@ -1987,6 +2075,91 @@ async def run_tunnel_endpoint(ctx: Ctx, rng, hops: int, use_model: bool, seed_ta
                 await o.unload()
             except Exception:
                 pass
+        await sim.stop()
+
+
+# ------------------------------------------------------------------------------------------------------------------
+async def run_dual_stack(ctx: Ctx, rng, hops: int, use_model: bool, seed_tag: str):
+    """Relays and exit run on a DispatcherEndpoint with two interfaces.  A cell is a cell on whichever interface it arrives:
+    cells in clear, foreign bytes, cells with an unknown id sent to the SECOND interface of a node must be refused exactly as
+    on the first (nothing delivered, nothing exited, nothing forwarded)."""
+    from ipv8.messaging.anonymization.tunnel import PEER_FLAG_EXIT_BT, PEER_FLAG_RELAY, PEER_FLAG_SPEED_TEST
+    sim = Sim(rng, hidden=False, open_policy=True)
+    tag = f"dual-stack/{hops}hop/{seed_tag}"
+    ck = Checker(ctx, sim, use_model, tag)
+    try:
+        sim.add_node()
+        for _ in range(hops):
+            sim.add_node(dual_stack=True)
+        sim.nodes[hops].overlay.settings.peer_flags = {PEER_FLAG_RELAY, PEER_FLAG_SPEED_TEST, PEER_FLAG_EXIT_BT}
+        await sim.introduce()
+        ov = sim.nodes[0].overlay
+        c = ov.create_circuit(hops)
+        await sim.settle(0.05)
+        if c is None or c.state != "READY":
+            ctx.oracle_fail("create_circuit:not-ready", f"{tag}: no circuit over dual-stack nodes", {"scenario": tag, "hops": hops})
+            return
+        path = path_of(sim, 0, c)
+        exit_node, exit_cid = path[-1]
+        sim.key_ids()
+        ck.load_tables()
+        ctx.count("scenario:dual-stack")
+        # genuine traffic first (the exit socket becomes enabled), captured as raw material
+        payload = rand_payload(rng, 50)
+        first = len(sim.passages)
+        sim.op_first_pid = first
+        n_exit = len(sim.exit_log)
+        ov.send_data(c.hop.address, c.circuit_id, ("8.8.4.4", 4242), ZERO, payload)
+        await sim.settle()
+        fwd = sim.passages[first]
+        ck.check_passages(first, "data fwd", {"scenario": tag, "op": "data_fwd"})
+        if [o[2] for o in sim.exit_log[n_exit:]] != [payload]:
+            ctx.oracle_fail("exit_data:output", f"{tag}: data did not leave the dual-stack exit", {"scenario": tag, "hops": hops})
+        prefix = ov.get_prefix()
+        for (src, dst, cid, pt, re, body) in fwd.wires:
+            node = sim.nodes[dst]
+            for iname, iface in list(node.endpoint.interfaces.items()):
+                other_msg = bytes([1]) + sim.nodes[0].overlay.serializer.pack_serializable(
+                    __import__("ipv8.messaging.anonymization.payload", fromlist=["DataPayload"]).DataPayload(
+                        cid, ("8.8.8.8", 53), ZERO, b"dINJECTEDe"))[4:]
+                bodies = {"clear-unflagged": (False, other_msg, other_msg), "clear-flagged": (True, other_msg, other_msg),
+                          "foreign": (False, bytes(rng.getrandbits(8) for _ in range(len(body))), None),
+                          "unknown-cid": (False, other_msg, other_msg)}
+                for kind, (ptf, b, plain) in bodies.items():
+                    ucid = cid if kind != "unknown-cid" else (cid + 77) & 0xffffffff
+                    pkt = prefix + b"\x00" + struct.pack("!I??", ucid, ptf, False) + b
+                    replay = {"scenario": tag, "op": "inject", "kind": kind, "interface": iname, "dst": dst, "cid": ucid, "hops": hops,
+                              "datagram": pkt.hex()}
+                    n_exit, n_raw = len(sim.exit_log), len(sim.raw_log)
+                    f2 = len(sim.passages)
+                    q = sim.inject(dst, src, pkt, dst_addr=tuple(iface.wan_address))
+                    await sim.settle()
+                    if sim.exit_log[n_exit:] or sim.raw_log[n_raw:] or any(p.delivered for p in sim.passages[f2:]) or q.wires:
+                        ctx.oracle_fail(f"inject:{kind}:delivered", f"{tag}: {kind} cell sent to interface {iname} of node {dst} under circuit "
+                                        f"{ucid} was {'exited' if sim.exit_log[n_exit:] else 'accepted'}", replay)
+                    ctx.count(f"interface:{iname}:{kind}")
+                    if ck.drv is not None:
+                        spec, inner = (f"G{len(b)}", "-") if plain is None else ("[]", plain.hex())
+                        m = ck.ask(f"inject {dst} {src} {ucid} {int(ptf)} 0 {spec} {inner}")
+                        mw, mfin, reason = canon_model(m)
+                        real = real_trace(sim, q, plain)
+                        fin = real_final(q, q.wires[-1][1] if q.wires else dst)
+                        if not traces_agree(mw, mfin, real, fin):
+                            ctx.disagree(f"{tag}: {kind} cell on interface {iname} of node {dst}: model {mw} {mfin} != implementation {real} {fin}",
+                                         {**replay, "model": m, "impl": real + [fin]})
+                    ctx.case(("dual-stack", hops, iname, kind, dst == exit_node), True)
+        # genuine traffic still works afterwards, in both directions
+        first = len(sim.passages)
+        n_raw = len(sim.raw_log)
+        sim.nodes[exit_node].overlay.exit_sockets[exit_cid].tunnel_data(("9.9.9.9", 99), payload)
+        await sim.settle()
+        ck.check_passages(first, "data bwd", {"scenario": tag, "op": "data_bwd"})
+        if [r[3] for r in sim.raw_log[n_raw:]] != [payload]:
+            ctx.oracle_fail("on_data:originator-input", f"{tag}: return data over dual-stack nodes did not arrive", {"scenario": tag, "hops": hops})
+        ck.compare_tables("at the end")
+    finally:
+        if ck.drv is not None:
+            ck.drv.close()
         await sim.stop()
 
 
@@ -2043,6 +2216,9 @@ def run(ctx: Ctx):
         sub = _random.Random(ctx.rng.getrandbits(64))
         _, errs = run_async(lambda: run_tunnel_endpoint(ctx, sub, hops, use_model, f"s{ctx.seed}r{rnd}"))
         note_errs(ctx, errs)
+        sub = _random.Random(ctx.rng.getrandbits(64))
+        _, errs = run_async(lambda: run_dual_stack(ctx, sub, 1 + (rnd + 1) % 3, use_model, f"s{ctx.seed}r{rnd}"))
+        note_errs(ctx, errs)
 
 
 def search(ctx: Ctx, reason: str):
@@ -2059,6 +2235,8 @@ def search(ctx: Ctx, reason: str):
             run_async(lambda: run_teardown(ctx, sub, hops, False, f"search{rnd}"))
             sub = _random.Random(ctx.rng.getrandbits(64))
             run_async(lambda: run_tunnel_endpoint(ctx, sub, hops, False, f"search{rnd}"))
+            sub = _random.Random(ctx.rng.getrandbits(64))
+            run_async(lambda: run_dual_stack(ctx, sub, hops, False, f"search{rnd}"))
 
 
 def replay(ctx: Ctx, rec: dict):
